@@ -22,23 +22,54 @@ def raw_stream(text):
     return out
 
 
+class _Dangling(Exception):
+    pass
+
+
+def _next(st, pos, nested=False):
+    """Tokenizer.next() on the raw stream: a backslash token makes next() call itself twice and return
+    what the second call produced"""
+    if pos >= len(st):
+        if nested:
+            raise _Dangling()
+        raise StopIteration
+    tok = st[pos]
+    pos += 1
+    if tok == '\\':
+        _, pos = _next(st, pos, True)
+        tok, pos = _next(st, pos, True)
+    return tok, pos
+
+
 def join_continuations(stream):
-    """Tokenizer.next(): a backslash token is dropped together with the token that follows it"""
-    out = []
-    i = 0
-    while i < len(stream):
-        if stream[i] == '\\':
-            i += 2
-            continue
-        out.append(stream[i])
-        i += 1
+    """the tokens Tokenizer.next() returns, one after the other"""
+    out, pos = [], 0
+    while pos < len(stream):
+        tok, pos = _next(stream, pos)
+        out.append(tok)
     return out
+
+
+def dangling_continuation(text):
+    """texts whose continuations cannot be joined into lines beforehand: the input ends while next()
+    is swallowing a continuation (StopIteration inside next()), or a backslash is the first word of a
+    line (the reader's peek() sees the raw backslash)"""
+    st = raw_stream(text)
+    try:
+        join_continuations(st)
+    except _Dangling:
+        return True
+    return any(t == '\\' and (k == 0 or st[k - 1] == '\n') for k, t in enumerate(st))
 
 
 def tokenise(text):
     """text -> document of the model: list of lines, each a list of tokens"""
     lines, cur = [], []
-    for t in join_continuations(raw_stream(text)):
+    try:
+        joined = join_continuations(raw_stream(text))
+    except _Dangling:
+        joined = []
+    for t in joined:
         if t == '\n':
             lines.append(cur)
             cur = []
